@@ -70,7 +70,7 @@ type Violation struct {
 type Result struct {
 	Viol     *Violation     `json:"viol,omitempty"`
 	Counters map[string]int `json:"counters,omitempty"`
-	Keys     []string       `json:"keys,omitempty"` // keys of distinct non-trivial things explored in this case
+	Keys     []string       `json:"keys,omitempty"`   // keys of distinct non-trivial things explored in this case
 	Scheds   []string       `json:"scheds,omitempty"` // hashes of the map-order decision logs of the runs of this case
 	Sample   any            `json:"sample,omitempty"`
 	SimTicks int64          `json:"ticks,omitempty"`
